@@ -1450,7 +1450,7 @@ def confCheck (A : Aff) (t : Tree) (binds : Array Binding) : Bool :=
   binds.toList.all fun b => b.entries.all fun e => e.actions.all fun a =>
     match a.act with
     | .raise | .raiseFront | .lower | .lowerBack | .keep => true
-    | .close | .unref | .hide | .unhide | .stealOn | .stealOff => A a.win
+    | .close | .unref | .hide | .unhide | .stealOn | .stealOff | .geom .. => A a.win
     | .focus => A a.win && focusOKCheck A t
 
 theorem confCheck_sound {A : Aff} {t : Tree} {binds : Array Binding} (h : confCheck A t binds = true) : Conf A t binds := by
